@@ -1,19 +1,16 @@
-"""Per-property configuration of ./check (sources, level, evidence rule text)."""
+"""Per-property configuration of ./check: one JSON fragment per property in harness/<cxx>.reg.json.
 
-REGISTRY = {
-    "C20": {
-        "sources": ["harness/c20.cpp"],
-        "level": "model_checking",
-        "rule": ("E1: breadth-first search over operation histories on the real Map/Set/TagMap/StyleMap/property-list/Array code "
-                 "with a lock-step std:: reference model; a state is the history that reaches it, canonicalised by the full slot "
-                 "layout (tables), serialised list (properties) or items+capacity (Array); every transition checks return values, "
-                 "all look-ups, iteration, to_array and the open-addressing probe-chain invariant.  E2: every key sequence / binary "
-                 "array / family member listed in bounds_completed through sort(), heap_sort and depth-limited intro_sort, ascending "
-                 "and descending.  'cases' = transitions checked + arrays sorted; non-trivial = table histories containing a "
-                 "relocating delete, a wrapped probe or growth after a delete; property histories removing a first/last/only/all "
-                 "entry; array histories through insert/remove; arrays with duplicate keys or length > 16."),
-        "assumptions": ["keys/values are drawn from the stated alphabets; 128-bit hash of the canonical string used for de-duplication",
-                        "ASan reports, crashes and hangs in a worker are violations of the case being executed"],
-        "nontrivial_floor": {"quick": 1000, "thorough": 1000},
-    },
-}
+Fields: sources (C++ files linked against the rebuilt gdstk), level (evidence level), rule (how cases are
+enumerated / what counts as non-trivial), assumptions, nontrivial_floor {quick,thorough}, optional flavor
+("asan" default | "fast"), optional script (Python orchestrator run as: python3 <script> --exe <built exe>
+--tier T --out FILE [--replay-args S]; it must speak the same JSONL protocol as vf::Run), optional
+deadline {quick,thorough} seconds (soft, passed as VERIF_DEADLINE_S) and hard_timeout {quick,thorough}.
+"""
+import glob, json, os
+
+_here = os.path.dirname(os.path.abspath(__file__))
+REGISTRY = {}
+for _p in sorted(glob.glob(os.path.join(_here, "harness", "*.reg.json"))):
+    with open(_p) as _f:
+        _cfg = json.load(_f)
+    REGISTRY[_cfg["property"]] = _cfg
